@@ -98,6 +98,29 @@ def main():
                         run.violation("both load paths agree on a corrupted file", dict(desc, offset=pos, old=old, new=new), (err, err2), "same verdict")
                 if any("[key of an optional" not in v["clause"] for v in run.violations):
                     break
+            # ---- every item's type code replaced by every other type code: must be rejected
+            for j in range(n_items):
+                pos = 64 + 64 * j
+                old = raw[pos]
+                ks, kl = struct.unpack("<QQ", raw[pos + 8: pos + 24])
+                key = raw[ks:ks + kl].decode("latin-1")
+                for new in range(10):
+                    if new == old:
+                        continue
+                    b = bytearray(raw)
+                    b[pos] = new
+                    open(q, "wb").write(bytes(b))
+                    for how in ("tables", "ts"):
+                        run.case()
+                        got, err = try_load(q, how)
+                        if got is not None and key.endswith("_offset") and {old, new} == {5, 7} and O.same_tables(got, ref):
+                            continue      # offset columns are legal in 32 and 64 bits; the object is unchanged
+                        if got is not None:
+                            run.violation("a column whose stored type code is altered is rejected",
+                                          dict(desc, key=key, old_type=old, new_type=new, path=how), "loaded", "exception")
+                            break
+                if run.violations and any("[key of an optional" not in v["clause"] for v in run.violations):
+                    break
             # ---- second object on a stream truncated
             with open(q, "wb") as f:
                 f.write(raw)
